@@ -98,13 +98,23 @@ Definition s_pline (l : pline) : sexp :=
   | PEqual items => Li [At "equal"; sL s_name items]
   end.
 
+Definition s_ref (x : ref) : sexp :=
+  match x with RB n r => Li [At "b"; At n; sB r] | RS n r => Li [At "s"; At n; sB r] end.
+Definition s_sup (n : string) (s : sup) : sexp :=
+  Li [At n; sL s_ref (s_seqs s); sL s_name (s_base s); sN (s_len s)].
+(* the objects behind the emitted lines: (sups, strands) with their item and base-sequence lists *)
+Definition s_objs (c : comp) : sexp :=
+  Li [sL (fun p => s_sup (fst p) (snd p)) (c_sups c);
+      sL (fun p => s_sup (fst p) (t_sup (snd p))) (c_strands c);
+      sL (fun p => Li [At (fst p); At (unchars (b_const (snd p))); sN (b_len (snd p))]) (c_bases c)].
+
 Definition run_comp (req : sexp) : sexp :=
   match req with
   | Li [ctr; At prefix; d; body] =>
       match dN ctr, d_declare d, dL d_stmt body with
       | Some ctr, Some d, Some body =>
           match compile_comp ctr prefix d body with
-          | OK (c, ctr') => sOk (Li [sN ctr'; sL s_pline (emit_comp c); sB (wf_check c)])
+          | OK (c, ctr') => sOk (Li [sN ctr'; sL s_pline (emit_comp c); sB (wf_check c); s_objs c])
           | Err k => sErr k
           end
       | _, _, _ => bad_request
